@@ -18,7 +18,7 @@ THOROUGH_BUDGET = 900.0
 RULE = ("One real instance (plus an honest real peer and a scripted querier) is brought into a seed-chosen in-flight "
         "state - probing, announcing, answers waiting in either multicast queue, a deferred truncated query, browsers in "
         "start-up or with refresh timers (created through async_add_service_listener and directly), lookups waiting, the "
-        "cache-purge timer - and AsyncZeroconf.async_close() is issued at a seed-chosen loop-iteration index (so that "
+        "cache-purge timer, thread-based ServiceBrowsers whose delivery thread is stepped by the simulator (blocking API) - and AsyncZeroconf.async_close() is issued at a seed-chosen loop-iteration index (so that "
         "closes land inside bursts) or Zeroconf.close() is called from a modelled non-loop thread; then up to 2 h of "
         "virtual time with continued incoming traffic follow, then a second close. Oracle over the trace, the callback "
         "log and the loop exception handler; every record the instance ever sent with a positive TTL must have been "
@@ -29,6 +29,9 @@ ASSUMPTIONS = [
     "loop.is_running() true and run_coroutine_threadsafe().result() steps the simulated loop; true parallelism inside the "
     "foreign thread's non-blocking stretches is not explored",
     "Zeroconf.close() from inside the loop thread is outside the property's quantifier and not generated",
+    "the delivery thread of a thread-based ServiceBrowser is modelled, not run: each queued event is handed to the "
+    "listener after a seed-chosen latency of 0..50 ms, Thread.join() in cancel() runs the remaining deliveries up to the "
+    "stop marker; the library's own run() loop (three lines) is what this replaces",
 ]
 
 T1 = "_http._tcp.local."
@@ -98,6 +101,12 @@ def generate(rng, tier):
         ops.append({"t": round(t_close + rng.choice([0.0001, 0.001, 0.01, 0.13]), 6), "op": "stall", "h": "V",
                     "dur": rng.choice([0.3, 1.05, 1.5])})
     mode = "sync" if rng.random() < 0.25 and not startup else "async"
+    if mode == "sync" and rng.random() < 0.6:
+        # an application written against the blocking API: ServiceBrowser objects with their own delivery thread, created
+        # through Zeroconf.add_service_listener (the thread is stepped by the simulator, see _ThreadModel)
+        for i in range(rng.choice([1, 2])):
+            ops.append({"t": round(rng.choice([0.02, max(0.02, t_close - 0.08), max(0.02, t_close - 5.0), max(0.02, t_close - 0.001)]), 6),
+                        "op": "tbrowse17", "h": "V", "id": f"tb{i}", "type": rng.choice([T1, T2])})
     if startup and rng.random() < 0.4:
         ops.append({"t": 0.0, "op": "close", "h": "V"})  # ... and a second request in the same instant
     if mode == "async" and rng.random() < 0.2:
@@ -138,6 +147,49 @@ def generate(rng, tier):
             "close_step": (rng.randrange(1, 16) if startup else
                            rng.choice([None, None, rng.randrange(1, 60), rng.randrange(1, 400)])) if mode == "async" else None,
             "end": round(max(horizon, ta + 2.0), 6), "second_close": round(max(horizon, ta + 2.0) - 1.0, 6)}
+
+
+class _JoinBlocksForever(Exception):
+    """The delivery thread never sees its stop marker: Thread.join() in cancel() would not return."""
+
+
+class _ThreadModel:
+    """The delivery thread of a zeroconf.ServiceBrowser, stepped cooperatively: the real run() loop is `get an event from
+    the queue; None ends the thread; otherwise fire the handlers`. Here every put() schedules one such step after a
+    seed-chosen scheduling latency of the thread (0 .. 50 ms), and join() - called by cancel() on the closing thread -
+    runs the remaining steps until the stop marker is reached, which is what blocking on the real thread amounts to."""
+
+    def __init__(self, w, host, sb):
+        self.w, self.host, self.sb = w, host, sb
+        self.items = []
+        self.finished = False
+        self.fired_after_finish = 0
+
+    # queue.SimpleQueue surface used by ServiceBrowser
+    def put(self, item):
+        self.items.append(item)
+        d = self.w.decide(f"thread/{self.host.name}", lambda r: r.choice([0.0, 0.0, 1e-6, 1e-4, 0.003, 0.05]))
+        self.w.loop.call_later(d, self.step, context=self.host.new_context())
+
+    def get(self):  # never called: run() is modelled by step()
+        raise AssertionError("the delivery thread is modelled")
+
+    def step(self):
+        if self.finished or not self.items:
+            return
+        ev = self.items.pop(0)
+        if ev is None:
+            self.finished = True
+            self.w.log("thread-exit", self.host.name)
+            return
+        self.w.net.fault_counts["thread_delivered_callbacks"] = self.w.net.fault_counts.get("thread_delivered_callbacks", 0) + 1
+        self.sb._fire_service_state_changed_event(ev)
+
+    def join(self, timeout=None):
+        while not self.finished:
+            if not self.items:
+                raise _JoinBlocksForever("ServiceBrowser.cancel(): the delivery thread was never told to stop")
+            self.step()
 
 
 class _SyncFuture:
@@ -183,6 +235,32 @@ def execute(scenario, seed, overrides=None):
             return lst
 
         drv.hooks["browse17"] = op_browse17
+        threads = []
+
+        def op_tbrowse17(op):
+            import zeroconf._services.browser as zb
+
+            h = w.hosts["V"]
+            if not h.alive or h.zc.done or st["t_call"] is not None:
+                return None
+            lst = RecordingListener(w, h, op["id"])
+            drv.listeners[("V", op["id"])] = lst
+            real_start = zb.ServiceBrowser.start
+            zb.ServiceBrowser.start = lambda self: None  # the thread is modelled, not started
+            try:
+                # (called like from any application thread: the loop is running, this is not one of its callbacks' tasks)
+                h.new_context().run(h.zc.add_service_listener, op["type"], lst)
+            finally:
+                zb.ServiceBrowser.start = real_start
+            sb = h.zc.browsers[lst]
+            tm = _ThreadModel(w, h, sb)
+            sb.queue = tm
+            sb.join = tm.join
+            threads.append(tm)
+            stats["threaded_browsers"] = stats.get("threaded_browsers", 0) + 1
+            return lst
+
+        drv.hooks["tbrowse17"] = op_tbrowse17
 
         def snapshot_state():
             h = w.hosts["V"]
@@ -193,7 +271,7 @@ def execute(scenario, seed, overrides=None):
             stats["registered_at_close"] += len(st["registered"])
             stats["queued_answers_at_close"] += len(zc.out_queue.queue) + len(zc.out_delay_queue.queue)
             stats["deferred_at_close"] += sum(len(p._deferred) for p in zc.engine.protocols)
-            stats["browsers_at_close"] += len(h.browsers) + len(h.azc.async_browsers)
+            stats["browsers_at_close"] += len(h.browsers) + len(h.azc.async_browsers) + len(zc.browsers)
             stats["lookups_pending_at_close"] += sum(1 for lk in drv.lookups if lk["entry"]["t_done"] is None)
             stats["registrations_in_flight_at_close"] += sum(1 for e in w.api_log if e["op"] == "register" and
                                                              e["host"] == "V" and e["t_done"] is None)
